@@ -18,12 +18,16 @@ Variable basename_of : name -> name.
 Variable re_match : name -> name -> bool.
 Variable regex_name : name -> name -> name.
 Variable is_regex_name : name -> bool.
+Variable is_opt : name -> bool.
 
 Notation init := (init matches).
 Notation expand_sel := (expand_sel has_star matches).
 Notation filter_list := (filter_list basename_of re_match regex_name is_regex_name).
-Notation select_core := (select_core has_star matches basename_of re_match regex_name is_regex_name).
-Notation cmd_run_select := (cmd_run_select has_star matches basename_of re_match regex_name is_regex_name).
+Notation get_wild := (get_wild matches).
+Notation process_filter := (process_filter has_star matches is_opt).
+Notation plain_sel := (plain_sel has_star is_opt).
+Notation select_core := (select_core has_star matches basename_of re_match regex_name is_regex_name is_opt).
+Notation cmd_run_select := (cmd_run_select has_star matches basename_of re_match regex_name is_regex_name is_opt).
 Notation resolves_all := (resolves_all basename_of re_match regex_name is_regex_name).
 Notation unresolvable := (unresolvable basename_of re_match is_regex_name).
 
@@ -62,11 +66,39 @@ Theorem C12_glob : forall order sel n,
   exists f, In f sel /\ (if has_star f then In n order /\ matches f n = true else n = f).
 Proof. exact (expand_sel_In has_star matches). Qed.
 
-(* `doit run names..` on a task list without delayed creators: the selected list is, element by element
-   of the expanded command line, the task of that name or the producer of that target; otherwise the run
-   is refused naming the first unknown element *)
+(* _process_filter / add_filtered_task: which tokens of the command line are selection elements.
+   (1) What follows a pattern is ALWAYS read as further elements, whatever tasks the pattern matched
+       (they get the empty argument list): the result is the matches followed by the reading of the rest. *)
+Theorem C12_after_glob : forall order tb st g r,
+  has_star g = true ->
+  process_filter order tb MName st (g :: r) =
+  match process_filter order tb MName (mark_glob tb st (get_wild order g)) r with
+  | None => None
+  | Some (fl, st') => Some (get_wild order g ++ fl, st')
+  end.
+Proof. exact (process_filter_after_glob has_star matches is_opt). Qed.
+
+(* (2) What follows a task declaring pos_arg that is named explicitly (and has no positional values yet)
+       are its values: only the task itself is selected. *)
+Theorem C12_pos_arg : forall order tb st p t r,
+  has_star p = false -> lookup tb p = Some t -> s_pos_arg t = true -> ~ In p (p_posset st) ->
+  Forall (fun x => is_opt x = false) r ->
+  exists st', process_filter order tb MName st (p :: r) = Some ([p], st').
+Proof. exact (process_filter_pos_arg has_star matches is_opt). Qed.
+
+(* (3) A command line on which nothing is a task argument -- no token looks like an option, no task with
+       pos_arg is named explicitly; patterns may match any task -- is read as: every pattern replaced by
+       its matches, every other token itself.  Nothing is dropped, nothing is added. *)
+Theorem C12_plain_expansion : forall order tb sel st,
+  plain_sel tb sel ->
+  exists st', process_filter order tb MName st sel = Some (expand_sel order sel, st').
+Proof. intros. apply process_filter_plain; auto. Qed.
+
+(* `doit run names..` on a task list without delayed creators and such a command line: the selected list
+   is, element by element of the expanded command line, the task of that name or the producer of that
+   target; otherwise the run is refused naming the first unknown element *)
 Theorem C12_select_exact : forall auto tb c sel,
-  init tb = inr c -> no_loader tb ->
+  init tb = inr c -> no_loader tb -> plain_sel (c_tasks c) sel ->
   (forall selected tb' tg',
      select_core auto false (Some sel) tb = ROk tb' tg' selected <->
      tb' = c_tasks c /\ tg' = c_targets c /\
@@ -75,17 +107,20 @@ Theorem C12_select_exact : forall auto tb c sel,
      select_core auto false (Some sel) tb = RNotFound f <->
      exists pre post, expand_sel (c_order c) sel = pre ++ f :: post /\
                       Forall (known (c_targets c) (c_tasks c)) pre /\ ~ known (c_targets c) (c_tasks c) f).
-Proof. exact (select_exact has_star matches basename_of re_match regex_name is_regex_name). Qed.
+Proof. exact (select_exact has_star matches basename_of re_match regex_name is_regex_name is_opt). Qed.
 
-(* unknown names, any table, with or without --single: the command fails (no selected list exists, so
-   nothing is dispatched) iff some element of the expanded command line is unresolvable after its
-   predecessors were resolved *)
-Theorem C12_unknown_rejected : forall auto single tb c sel f,
+(* failures, any table, any command line, with or without --single: a task's option parser rejects its
+   options, or some selection element is unresolvable after its predecessors were resolved; either way
+   there is no selected list, so nothing is dispatched *)
+Theorem C12_unknown_rejected : forall auto single tb c sel,
   init tb = inr c ->
-  (select_core auto single (Some sel) tb = RNotFound f <->
-   exists pre post tb1 s1, expand_sel (c_order c) sel = pre ++ f :: post /\
+  (select_core auto single (Some sel) tb = RParseErr <->
+   process_filter (c_order c) (c_tasks c) MName pstate0 sel = None) /\
+  (forall f, select_core auto single (Some sel) tb = RNotFound f <->
+   exists fl st pre post tb1 s1,
+     process_filter (c_order c) (c_tasks c) MName pstate0 sel = Some (fl, st) /\ fl = pre ++ f :: post /\
      resolves_all auto (c_targets c) (c_tasks c) pre tb1 s1 /\ unresolvable auto (c_targets c) tb1 f).
-Proof. exact (select_not_found has_star matches basename_of re_match regex_name is_regex_name). Qed.
+Proof. exact (select_failures has_star matches basename_of re_match regex_name is_regex_name is_opt). Qed.
 
 (* positional arguments win; without them DOIT_CONFIG['default_tasks'] is the selection (an empty list
    selects nothing); without both, all tasks in definition order *)
@@ -95,7 +130,7 @@ Theorem C12_default : forall auto single tb,
   (forall c, init tb = inr c ->
      cmd_run_select auto single [] None tb =
      ROk (if single then single_step (c_tasks c) (map fst tb) else c_tasks c) (c_targets c) (map fst tb)).
-Proof. exact (default_spec has_star matches basename_of re_match regex_name is_regex_name). Qed.
+Proof. exact (default_spec has_star matches basename_of re_match regex_name is_regex_name is_opt). Qed.
 
 (* task_dep after TaskControl.__init__: the declared ones, the defined tasks matching a wild-card entry,
    and the producers of the file dependencies -- nothing else *)
@@ -105,23 +140,26 @@ Theorem C12_init_task_dep_exact : forall tb c k t0 t d,
    In d (s_task_dep t0) \/
    (exists p, In p (s_wild_dep t0) /\ In d (map fst tb) /\ matches p d = true) \/
    (exists f, In f (s_file_dep t0) /\ tg_get (c_targets c) f = Some d)).
-Proof. exact (init_task_dep_exact has_star matches basename_of re_match regex_name is_regex_name). Qed.
+Proof. exact (init_task_dep_exact has_star matches basename_of re_match regex_name is_regex_name is_opt). Qed.
 
 Theorem C12_implicit_deps_complete : forall tb c k t f u,
   init tb = inr c -> lookup (c_tasks c) k = Some t -> In f (s_file_dep t) ->
   tg_get (c_targets c) f = Some u -> In u (s_task_dep t).
-Proof. exact (implicit_deps_complete has_star matches basename_of re_match regex_name is_regex_name). Qed.
+Proof. exact (implicit_deps_complete has_star matches basename_of re_match regex_name is_regex_name is_opt). Qed.
 
 (* the targets dict maps a file to the task that lists it as target (unique, else __init__ fails) *)
 Theorem C12_targets_exact : forall tb c f u,
   init tb = inr c ->
   (tg_get (c_targets c) f = Some u <-> exists t, lookup tb u = Some t /\ In f (s_targets t)).
-Proof. exact (targets_exact has_star matches basename_of re_match regex_name is_regex_name). Qed.
+Proof. exact (targets_exact has_star matches basename_of re_match regex_name is_regex_name is_opt). Qed.
 
 End Statements.
 Print Assumptions C12_filter_exact.
 Print Assumptions C12_filter_exact_static.
 Print Assumptions C12_glob.
+Print Assumptions C12_after_glob.
+Print Assumptions C12_pos_arg.
+Print Assumptions C12_plain_expansion.
 Print Assumptions C12_select_exact.
 Print Assumptions C12_unknown_rejected.
 Print Assumptions C12_default.
@@ -153,20 +191,22 @@ Print Assumptions C12_single.
 
 (* ---- non-vacuity: a concrete task list on which the hypotheses hold and every form of selection occurs.
    strings: 0 'a'  1 'g'  2 'g:x'  3 'g:y'  4 'b'  5 'out.txt' (target of b)  6 'g:*'  7 'zz'  8 'in.txt'
+            20 'p' (declares pos_arg)  21 'o' (options -f, -v VALUE)  22 '-f'  23 '-v'  24 'val'  25 '*' (matches p, o)  26 '-z'
    a: file_dep out.txt;  g: group of g:x, g:y;  g:x: task_dep a;  b: targets out.txt, task_dep 'g:*' *)
-Definition ex_star (s : name) : bool := match s with 6 => true | _ => false end.
-Definition ex_match (p s : name) : bool := match p, s with 6, 2 | 6, 3 => true | _, _ => false end.
+Definition ex_star (s : name) : bool := match s with 6 | 25 => true | _ => false end.
+Definition ex_match (p s : name) : bool := match p, s with 6, 2 | 6, 3 | 25, 20 | 25, 21 => true | _, _ => false end.
+Definition ex_opt (s : name) : bool := match s with 22 | 23 | 26 => true | _ => false end.
 Definition ex_base (s : name) : name := match s with 2 | 3 => 1 | _ => s end.
 Definition ex_false2 (a b : name) : bool := false.
 Definition ex_rn (a b : name) : name := 99.
 Definition ex_false1 (a : name) : bool := false.
-Definition ex_task td wd fd tg grp sub : stask := Build_stask td wd [] [] fd tg grp sub None.
+Definition ex_task td wd fd tg grp sub : stask := Build_stask td wd [] [] fd tg grp sub None false [].
 Definition ex_tb : table :=
   [(0, ex_task [] [] [5; 8] [] false None); (1, ex_task [2; 3] [] [] [] true None);
    (2, ex_task [0] [] [] [] false (Some 1)); (3, ex_task [] [] [] [] false (Some 1));
    (4, ex_task [] [6] [] [5] false None)].
 Definition ex_select single args dflt :=
-  cmd_run_select ex_star ex_match ex_base ex_false2 ex_rn ex_false1 false single args dflt ex_tb.
+  cmd_run_select ex_star ex_match ex_base ex_false2 ex_rn ex_false1 ex_opt false single args dflt ex_tb.
 
 Example C12_example_init :
   exists c, Select.init ex_match ex_tb = inr c /\ no_loader ex_tb /\
@@ -195,11 +235,33 @@ Example C12_example_single :
                  task_dep_of tb 2 = [0]).
 Proof. vm_compute. split; eexists; eexists; repeat split. Qed.
 
+(* task arguments.  p declares pos_arg, o the options -f and -v VALUE:
+   `'*' a zz`: the pattern matches p and o, yet a is selected and zz rejected;  `o -f -v val a`: the options are
+   consumed;  `p a zz`: a and zz are values of p;  `o -z`: option parse error;  `'*' p a`: p got () from the
+   pattern, so a is an element;  the hypothesis of C12_plain_expansion holds for ['*'; a; zz] *)
+Definition ex_tb2 : table :=
+  [(0, ex_task [] [] [] [] false None); (20, Build_stask [] [] [] [] [] [] false None None true []);
+   (21, Build_stask [] [] [] [] [] [] false None None false [(22, false); (23, true)])].
+Definition ex_select2 args :=
+  cmd_run_select ex_star ex_match ex_base ex_false2 ex_rn ex_false1 ex_opt false false args None ex_tb2.
+Example C12_example_arguments :
+  ex_select2 [25; 0; 7] = RNotFound 7 /\
+  (exists tb tg, ex_select2 [25; 0] = ROk tb tg [20; 21; 0]) /\
+  (exists tb tg, ex_select2 [21; 22; 23; 24; 0] = ROk tb tg [21; 0]) /\
+  (exists tb tg, ex_select2 [20; 0; 7] = ROk tb tg [20]) /\
+  ex_select2 [21; 26] = RParseErr /\
+  (exists tb tg, ex_select2 [25; 20; 0] = ROk tb tg [20; 21; 20; 0]) /\
+  plain_sel ex_star ex_opt ex_tb2 [25; 0; 7].
+Proof.
+  repeat match goal with |- _ /\ _ => split end; try (vm_compute; eauto; fail).
+  unfold plain_sel. repeat constructor; intros Hs t Hl; vm_compute in Hs, Hl; try discriminate; inversion Hl; reflexivity.
+Qed.
+
 (* a delayed creator d (string 10) : 'd:7' (11, basename 10) is accepted by a placeholder task; the model
    (like the code) cannot know at selection time that the creator never yields it (finding K3, Part B) *)
 Example C12_example_delayed :
-  let tb := [(10, Build_stask [] [] [] [] [] [] false None (Some (Build_loader None None)))] in
-  exists tb' tg, select_core ex_star ex_match (fun s => match s with 11 => 10 | _ => s end) ex_false2 ex_rn ex_false1
+  let tb := [(10, Build_stask [] [] [] [] [] [] false None (Some (Build_loader None None)) false [])] in
+  exists tb' tg, select_core ex_star ex_match (fun s => match s with 11 => 10 | _ => s end) ex_false2 ex_rn ex_false1 ex_opt
                              false false (Some [11]) tb = ROk tb' tg [11] /\ has tb' 11 = true.
 Proof. vm_compute. eauto. Qed.
 
